@@ -34,6 +34,7 @@ for f, args, bools, res, st, what in (
         ('vf_oalt_l', ('a', 'b'), ('h', 'hd'), '(h ? a : (hd ? b : (u32)-1))', '*st == (h ? 1 : 0)', 'optional::alternative on an lvalue'),
         ('vf_ofrom_l', ('a', 'b'), ('h',), '(h ? a : b)', '*st == (h ? 1 : 0)', 'optional::from on an lvalue')):
     C[f] = ([ID(*args), B(*bools), '__CPROVER_is_fresh(st, 4)'], ['*st'], ['__CPROVER_return_value == %s' % res, st, 'n_move[a] == m_nmove[a]', NORM], what + ': the argument is left intact (not moved from)')
+C['vf_ofilter_rv'] = ([ID('a'), B('h', 'keep')], [], ['__CPROVER_return_value == ((h && keep) ? a : (u32)-1)', 'n_copy[a] == __CPROVER_old(n_copy[a]) + (h ? 1 : 0)', NORM], 'optional::filter on an rvalue with a predicate taking its argument by value: the predicate gets a copy, the value that is returned is intact (not moved from)')
 C['vf_vtoopt_l'] = ([ID('a'), B('first'), '__CPROVER_is_fresh(st, 4)'], ['*st'], ['__CPROVER_return_value == (first ? a : (u32)-1)', '*st == (first ? 1 : 0)', NORM], 'variant::to_optional on a (non-const) lvalue variant: the held alternative is copied, the variant is left intact')
 C['vf_vmatch_l'] = ([ID('a'), B('first'), '__CPROVER_is_fresh(st, 4)'], ['*st'], ['__CPROVER_return_value == (first ? a : b)', '*st == (first ? 1 : 0)', NOCOPY, NORM], 'variant::match on a (non-const) lvalue variant: the variant is left intact, nothing is copied by the library')
 C['vf_ocombine_ll'] = ([ID('a', 'b'), B('h1', 'h2'), '__CPROVER_is_fresh(s1, 4) && __CPROVER_is_fresh(s2, 4)'], ['*s1', '*s2'],
